@@ -1729,44 +1729,52 @@ func (p *parser) scanCharSet(caseInsensitive, scanOnly bool) (*CharSet, error) {
 		} else if ch == '\\' && p.charsRight() > 0 {
 			switch ch = p.moveRightGetChar(); ch {
 			case 'D', 'd':
-				if !scanOnly {
-					if inRange {
+				if inRange {
+					if !scanOnly {
 						if !p.useOptionE() {
 							return nil, p.getErr(ErrBadClassInCharRange, ch)
 						}
 						cc.addChar(chPrev)
 						cc.addChar('-')
-						inRange = false
 					}
+					// also when only scanning (countCaptures): the flag must follow the full scan
+					inRange = false
+				}
+				if !scanOnly {
 					cc.addDigit(p.useOptionE() || p.useRE2(), ch == 'D')
 				}
 				continue
 
 			case 'S', 's':
-				if !scanOnly {
-					if inRange {
+				if inRange {
+					if !scanOnly {
 						if !p.useOptionE() {
 							return nil, p.getErr(ErrBadClassInCharRange, ch)
 						}
 						cc.addChar(chPrev)
 						cc.addChar('-')
-						inRange = false
 					}
+					// also when only scanning (countCaptures): the flag must follow the full scan
+					inRange = false
+				}
+				if !scanOnly {
 					cc.addSpace(p.useOptionE(), p.useRE2(), ch == 'S')
 				}
 				continue
 
 			case 'W', 'w':
-				if !scanOnly {
-					if inRange {
+				if inRange {
+					if !scanOnly {
 						if !p.useOptionE() {
 							return nil, p.getErr(ErrBadClassInCharRange, ch)
 						}
 						cc.addChar(chPrev)
 						cc.addChar('-')
-						inRange = false
 					}
-
+					// also when only scanning (countCaptures): the flag must follow the full scan
+					inRange = false
+				}
+				if !scanOnly {
 					cc.addWord(p.useOptionE() || p.useRE2(), ch == 'W')
 				}
 				continue
@@ -1776,24 +1784,27 @@ func (p *parser) scanCharSet(caseInsensitive, scanOnly bool) (*CharSet, error) {
 					return nil, p.getErr(ErrShorthandClassInCharRange, string(ch))
 				}
 				if p.useOptionE() && !p.useOptionU() && ch == 'p' {
-					if !scanOnly {
-						if inRange {
+					// the cursor and the range flag move the same way when only scanning (countCaptures)
+					if inRange {
+						if !scanOnly {
 							if chPrev > ch {
 								return nil, p.getErr(ErrReversedCharRange, chPrev, ch)
 							}
 							cc.addRange(chPrev, ch)
-							inRange = false
-						} else if p.charsRight() >= 2 && p.rightChar(0) == '-' && p.rightChar(1) != ']' {
+						}
+						inRange = false
+					} else if p.charsRight() >= 2 && p.rightChar(0) == '-' && p.rightChar(1) != ']' {
+						p.moveRight(1)
+						chLast := p.moveRightGetChar()
+						if !scanOnly {
 							cc.addChar('-')
-							p.moveRight(1)
-							chLast := p.moveRightGetChar()
 							if ch > chLast {
 								return nil, p.getErr(ErrReversedCharRange, ch, chLast)
 							}
 							cc.addRange(ch, chLast)
-						} else {
-							cc.addChar(ch)
 						}
+					} else if !scanOnly {
+						cc.addChar(ch)
 					}
 					continue
 				}
